@@ -10,7 +10,13 @@ EXTENDS PegVM, Json, IOUtils
 
 Scen == ndJsonDeserialize(IOEnv.MC_SCEN)
 MAXIN == atoi(IOEnv.MC_MAXIN)
-Bodies == [s \in 1..Len(Scen) |-> BodyMap(Core(Scen[s].grammar))]
+Bodies == [s \in 1..Len(Scen) |-> BodyMap(ShapeG(Core(Scen[s].grammar)))]
+\* MC_SWITCH = "1": the machine runs the bodies rewritten by the transcribed optimiser passes (the invariants still
+\* compare with PegSem!Eval of the ORIGINAL bodies: the design-level statement of C02 for the emitted code)
+OZ == INSTANCE Optimizer WITH RewriteNullable <- FALSE, SkipThroughAll <- FALSE, FirstPasses <- 0
+Switched == "MC_SWITCH" \in DOMAIN IOEnv /\ IOEnv.MC_SWITCH = "1"
+InAlphaOf(s) == UNION {{Scen[s].inputs[k].r[j] : j \in 1..Len(Scen[s].inputs[k].r)} : k \in {x \in 1..Len(Scen[s].inputs) : "r" \in DOMAIN Scen[s].inputs[x]}}
+RunBodies == [s \in 1..Len(Scen) |-> IF Switched THEN OZ!OptGrammarCode(Bodies[s], InAlphaOf(s), Scen[s].grammar.rules[1].name) ELSE Bodies[s]]
 
 VARIABLES sid, iid, memoOn
 vars == <<sid, iid, memoOn, pos, tix, tree, maxTok, memo, stk, st, cur, ev, nhit, nadd>>
@@ -23,7 +29,7 @@ Init == /\ sid \in 1..Len(Scen)
         /\ memoOn \in BOOLEAN
         /\ VMInit(Entry)
 U == UNCHANGED <<sid, iid, memoOn>>
-B == Bodies[sid]
+B == RunBodies[sid]
 \* every machine action is a top-level disjunct, so that -coverage reports a count per action
 Next ==
   \/ (MatchChr(W) /\ U)
@@ -62,6 +68,11 @@ Next ==
   \/ (RuleOk(memoOn) /\ U)
   \/ (RuleKo(memoOn) /\ U)
   \/ (Halt /\ U)
+  \/ (SwitchDispatch(W) /\ U)
+  \/ (SkipTerminal(W) /\ U)
+  \/ (SkipSeq /\ U)
+  \/ (SkipCap /\ U)
+  \/ (SkipDrop({}) /\ U)
 Spec == Init /\ [][Next]_vars
 
 AgreeInv == Agree(Bodies[sid], W, Entry)
